@@ -176,7 +176,7 @@ func (w *world) waitHTTP(name, port string) {
 }
 
 func httpInfo(name, port, ua string) map[string]any {
-	return map[string]any{"Name": name, "Protocol": "Http", "HostBind": "127.0.0.1", "Hosts": "127.0.0.1", "Headers": "", "Uris": "",
+	return map[string]any{"Name": name, "Protocol": "Http", "HostBind": "127.0.0.1", "Hosts": "127.0.0.1", "Headers": "", "Uris": "/u1",
 		"HostRotation": "round-robin", "PortBind": port, "PortConn": port, "HostHeader": "", "UserAgent": ua, "Secure": "false", "Proxy Enabled": "false"}
 }
 
@@ -250,7 +250,13 @@ func (w *world) apply(o op) {
 			}
 		}
 	case "editHTTP":
-		w.dispatch(L.Type, L.Edit, map[string]any{"Name": o.name, "Protocol": "Http", "HostBind": "127.0.0.1", "Hosts": "127.0.0.1", "Headers": "", "Uris": "",
+		// the listener has served a request before the edit (whatever it may have cached is in place)
+		if h := w.httpListener(o.name); h != nil && h.Config.UserAgent == "UA1" {
+			if got := w.probe(h, "UA1", "/u1"); got != 200 {
+				w.panics = append(w.panics, fmt.Sprintf("harness: a request matching the unedited listener was answered %d", got))
+			}
+		}
+		w.dispatch(L.Type, L.Edit, map[string]any{"Name": o.name, "Protocol": "Http", "HostBind": "127.0.0.1", "Hosts": "127.0.0.1", "Headers": "", "Uris": "/u2",
 			"HostRotation": "round-robin", "PortBind": w.ports[o.name], "PortConn": w.ports[o.name], "HostHeader": "", "UserAgent": "UA2", "Secure": "false", "Proxy Enabled": "false"})
 	case "remove":
 		if w.httpListener(o.name) != nil {
@@ -466,10 +472,12 @@ func (w *world) invariants(last op) (string, string) {
 	if last.kind == "editHTTP" {
 		if h := w.httpListener(last.name); h != nil {
 			// the next request sees the edited user agent
-			old := w.probe(h, "UA1")
-			neu := w.probe(h, "UA2")
-			if old != 404 || neu == 404 {
-				return "edit-not-applied", fmt.Sprintf("after the edit a request with the old user agent got %d and with the new one %d", old, neu)
+			// the next request sees the edited user agent and the edited URI list
+			old := w.probe(h, "UA1", "/u1")
+			oldURI := w.probe(h, "UA2", "/u1")
+			neu := w.probe(h, "UA2", "/u2")
+			if old != 404 || oldURI != 404 || neu == 404 {
+				return "edit-not-applied", fmt.Sprintf("after the edit (user agent UA1 -> UA2, URI /u1 -> /u2) a request with the old user agent got %d, with the new user agent on the old URI %d, with the new user agent on the new URI %d", old, oldURI, neu)
 			}
 		}
 	}
@@ -547,11 +555,11 @@ func (w *world) invariants(last op) (string, string) {
 // exists afterwards): 200 reached, 404 refused.
 var probeID uint32 = 0x7100
 
-func (w *world) probe(h *handlers.HTTP, ua string) int {
+func (w *world) probe(h *handlers.HTTP, ua, uri string) int {
 	probeID++
 	id := probeID
 	body := demonwire.Register(id, seam.Key(3), seam.IV(3), demonwire.DefaultMeta(id))
-	req := httptest.NewRequest("POST", "/", bytes.NewReader(body))
+	req := httptest.NewRequest("POST", uri, bytes.NewReader(body))
 	req.Header.Set("User-Agent", ua)
 	req.RemoteAddr = "10.0.0.9:1"
 	rec := httptest.NewRecorder()
